@@ -13,10 +13,10 @@ type SchedOcc struct {
 
 const SchedAvailable = false
 
-func SchedReset()                    {}
-func SchedSet(occurrence, code int)  {}
-func SchedSetRandom(seed uint64)     {}
-func SchedSetRandomSites(s []string) {}
+func SchedReset()                     {}
+func SchedSet(occurrence, code int)   {}
+func SchedSetRandom(seed uint64)      {}
+func SchedSetRandomSites(s []string)  {}
 func SchedSetReverseSites(s []string) {}
-func SchedLog() []SchedOcc           { return nil }
-func SchedCalls() int                { return 0 }
+func SchedLog() []SchedOcc            { return nil }
+func SchedCalls() int                 { return 0 }
